@@ -131,12 +131,12 @@ pub fn subs() -> Vec<Sub> {
         Sub { prop: "C19", name: "extreme-heads", rule: "all 256 initial bytes x 10 argument patterns (extreme and boundary declared lengths) x 4 tails",
               kind: Kind::Enumerate { quick: 256 * 10 * 4, thorough: 256 * 10 * 4, f: extreme_heads, complete_quick: true, complete_thorough: true } },
         Sub { prop: "C19", name: "mutated", rule: "structure-aware mutations of valid items and random bytes, same totality/size/work oracle; distinct by input",
-              kind: Kind::Random { quick: 150_000, thorough: 10_000_000, tape: 1024, f: mutated } },
+              kind: Kind::Random { quick: 750_000, thorough: 10_000_000, tape: 1024, f: mutated } },
         Sub { prop: "C19", name: "truncated", rule: "strict prefixes of valid items and huge declared counts in front of valid items",
-              kind: Kind::Random { quick: 60_000, thorough: 2_000_000, tape: 1024, f: truncated } },
+              kind: Kind::Random { quick: 300_000, thorough: 2_000_000, tape: 1024, f: truncated } },
         Sub { prop: "C19", name: "exact-small", rule: "every tree with <= 3 nodes x every head-width assignment: output equals the reference renderer (documented notation)",
               kind: Kind::Enumerate { quick: n, thorough: n, f: exact_small, complete_quick: true, complete_thorough: true } },
         Sub { prop: "C19", name: "exact-random", rule: "grammar-generated well-formed single items: output equals the reference renderer; distinct by encoding",
-              kind: Kind::Random { quick: 80_000, thorough: 4_000_000, tape: 1024, f: exact_random } },
+              kind: Kind::Random { quick: 400_000, thorough: 4_000_000, tape: 1024, f: exact_random } },
     ]
 }
